@@ -59,9 +59,9 @@ func C07(c *Ctx) {
 			r.Fatal("methods of ast.%s not found", k.Name)
 			continue
 		}
-		c07Initial(c, g, k.Name, in, sp.initial)
-		c07Nullable(c, g, k.Name, nv, isn, sp.null)
-		c07Visits(c, g, k.Name, nv, sp.initial)
+		c07InitialN(c, g, k.Name, in, sp.initial)
+		c07NullableN(c, g, k.Name, nv, isn, sp.null)
+		c07VisitsN(c, g, k.Name, nv, sp.initial)
 	}
 	r.MinRule("C07-i", 18)
 	r.MinRule("C07-n", 18)
